@@ -375,7 +375,10 @@ pub fn run(ctx: &Ctx, rep: &mut Report) {
 	rep.rule = "bb: message flows of the real daemon (account key of any of 7 types; first registration + issuance; then optionally an edited configuration: key type change = roll-over between any two types (optionally two changes in a row with a start in between during which no renewal is due), contact change, plain restart; external account binding HS256/384/512; spurious badNonce answers at random positions and run lengths; 0..2 one-shot error answers of other ACME types, each delivered with a fresh nonce; the CA forgetting the account between the runs; CA with/without nonces on GET) against the strict mock CA, which checks every POST: flattened JWS shape, header members, alg vs key on record, url == request URL, nonce issued by this server and unused, jwk only for newAccount / inside key-change, kid otherwise, signature under the key on record (OpenSSL + ring, fixed-width R||S), payload shape, inner key-change JWS and EAB JWS. Any strict event is a violation; every run must succeed and the CA's key must follow the configuration. Non-trivial = history with a badNonce retry, a roll-over or EAB. pr: batches of JWS produced by the daemon's builders in the probe over random payloads/URLs/nonces/kids with a fresh key per JWS (and random MAC keys), each decoded and verified by the harness; non-trivial = an ECDSA signature whose r or s starts with a zero octet (or a MAC case).".into();
 	rep.assume("nonce freshness is judged on histories in which every response is delivered (badNonce and other error answers carry a fresh nonce); dropped connections and nonce-less answers are not injected here");
 	run_replays::<BbCase>(ctx, rep, "bb", &exec_bb);
-	run_replays::<PrCase>(ctx, rep, "pr", &exec_pr);
+	for kt in gen::KEY_TYPES {
+		run_replays::<PrCase>(ctx, rep, &format!("pr-{kt}"), &exec_pr);
+	}
+	run_replays::<PrCase>(ctx, rep, "pr-mac", &exec_pr);
 	if ctx.replay.is_some() {
 		return;
 	}
